@@ -78,7 +78,7 @@ pub fn job_c17(out_dir: &str, tier: &str, seed: u64) {
     let mut pending: Vec<(Value, Vec<u8>, Vec<usize>, CapiOpts, Value)> = Vec::new();
     for (ii, input) in inputs.iter().enumerate() {
         for si in 0..2 {
-            let (_, hs) = &sets[(ii * 3 + si * 5) % sets.len()];
+            let (_, hs) = &sets[(ii + si * 7) % sets.len()];
             let mut cfg = gen::merge(hs, &json!({"strict": rng.chance(2, 3), "enc": if rng.chance(4, 5) { "utf-8" } else { *rng.pick(&["windows-1252", "shift_jis", "koi8-r"]) }}));
             // error injections: Stop at a handler index, tiny memory limits, bad selector / encoding
             match rng.below(10) {
